@@ -307,6 +307,20 @@ def add_bpki(T):
             kl = kl_of(c)
             cont = _grow_encdata(_container(x, kind, kl, c["seed"], expand(c["seed"] + "truepw", 12)), [200, 900, 1000, 1500, 3000, 6000][c["L"] % 6] + c["L"], c["seed"])
             return U, [x.out(kl + 8000), x.zero(8), x.buf(cont), len(cont), S, 8 + c["L"] % 30]
+        def unwrap_ok(x, c, S, W=W, U=U, kind=kind, kl_of=kl_of, probe=False):
+            # success exits (with the output and as a length query): the container is made from the secret key material in the parent under a public password
+            kl = kl_of(c)
+            if kind == "share":
+                S.write(bytes([1 + c["L"] % 16]))      # the share number is public
+            pw = expand(c["seed"] + "pw", 8 + c["L"] % 30)
+            ln = x.zero(8)
+            x.call(W, None, ln, None, kl, None, 0, None, 10000)
+            ep = x.out(ln.int())
+            if x.call(W, ep, x.zero(8), S, kl, x.buf(pw), len(pw), x.buf(expand(c["seed"] + "salt", 8)), 10000):
+                raise Fail("%s failed while preparing a container" % W)
+            return U, [None if probe else x.out(kl), x.zero(8), ep, ln.int(), x.buf(pw), len(pw)]
+        T[U + ":ok"] = ((lambda c, kl_of=kl_of: kl_of(c)), unwrap_ok)
+        T[U + ":okprobe"] = ((lambda c, kl_of=kl_of: kl_of(c)), lambda x, c, S, f=unwrap_ok: f(x, c, S, probe=True))
         T[W + ":pwd"] = ((lambda c: 8 + c["L"] % 30), wrap_pwd)
         T[W + ":key"] = ((lambda c, kl_of=kl_of: kl_of(c)), wrap_key)
         T[U + ":badpwd"] = ((lambda c: 8 + c["L"] % 30), unwrap_badpwd, "ERR_BAD_KEYTOKEN")
@@ -349,7 +363,13 @@ def add_other_sign(T):
         P = x.out(8 + 64 * 5 + 8)
         x.call("bign96ParamsStd", P, _cstr(x, "1.2.112.0.2.0.34.101.45.3.0"))
         return "bign96Sign2", [x.out(34), P, x.buf(oid), len(oid), x.buf(expand(c["seed"], 24)), S, None, 0]
+    def sign96_badrng(x, c, S):
+        # a generator stuck at 0xFF.. / 0x00..: every sample is rejected, late error exit with the private key already loaded
+        P = x.out(8 + 64 * 5 + 8)
+        x.call("bign96ParamsStd", P, _cstr(x, "1.2.112.0.2.0.34.101.45.3.0"))
+        return "bign96Sign", [x.out(34), P, x.buf(oid), len(oid), x.buf(expand(c["seed"], 24)), S, GEN, x.tape(b"", mode=2 if c["L"] % 2 else 1)]
     q96 = RB.std_params(96)["q"]
+    T["bign96Sign:badrng"] = (("pair", dpair("n", q96, 24)), sign96_badrng, "ERR_BAD_RNG")
     T["bign96Sign"] = (("pair", dpair("n", q96, 24)), sign96)
     T["bign96Sign2"] = (("pair", dpair("n", q96, 24)), sign96_2)
 
